@@ -63,7 +63,17 @@ VARIABLES fs,       \* [Paths -> content]            what is on disk
           base,     \* fs at the beginning of the current update (the "previous version")
           crashed,
           \* ---- the specified updater (part 3)
-          pc, nw, target, tmp, cls, mem, kept, fk, hist, vals, nflt
+          pc,       \* idle / open / write / failclose / rename / abort
+          nw,       \* write calls issued in the current update
+          target,   \* the live file the current update publishes
+          tmp,      \* its temp file
+          cls,      \* class of the value being written
+          mem,      \* [Live -> class] class of the owner's in-memory value ("unset" before the first assignment)
+          kept,     \* the current update re-persists an unchanged value
+          fk,       \* kind of the I/O error injected into the current update ("none")
+          hist,     \* finished updates: <<[t, c, keep, f, ok]>>
+          vals,     \* [update number -> class written]
+          nflt      \* I/O errors injected so far
 fsvars == <<fs, hs, upd, base, crashed>>
 upvars == <<pc, nw, target, tmp, cls, mem, kept, fk, hist, vals, nflt>>
 vars == <<fs, hs, upd, base, crashed, pc, nw, target, tmp, cls, mem, kept, fk, hist, vals, nflt>>
